@@ -409,6 +409,9 @@ func genContention(r *vc.Rand) *Scenario {
 	}
 	mkc := func() Op {
 		op := mk()
+		if op.Kind != "revert" && r.Chance(1, 8) {
+			op.DryRun = true // a preview takes (and must give back exactly) the same locks
+		}
 		if r.Chance(1, 5) {
 			op.CancelAt = r.Range(1, 16) // the client gives up somewhere between reservation and acknowledgement
 		}
@@ -467,6 +470,23 @@ func genIdempotency(r *vc.Rand) *Scenario {
 			op := d.op
 			attempt++
 			op.Attempt = attempt
+			if a > 0 && r.Chance(1, 6) {
+				// the key comes back with another kind of write (a client bug, or a key that is too coarse): whatever the
+				// answer - an error, or as the code stands a crash of the request - nothing more may take effect under the key
+				var x Op
+				switch r.Intn(3) {
+				case 0:
+					x = g.saveMetaAcc(vc.Pick(r, accts), map[string]string{"x": "1"})
+				case 1:
+					x = g.delMetaAcc(vc.Pick(r, accts))
+				default:
+					x = g.send("alice", "sink", 1, "", "literal")
+				}
+				if x.Kind != d.op.Kind || x.Kind == "script" && d.op.Kind != "script" {
+					x.IK, x.Attempt = d.op.IK, attempt
+					op = x
+				}
+			}
 			if a > 0 && r.Chance(1, 4) {
 				retry = append(retry, op) // issued after a restart
 				continue
@@ -791,6 +811,33 @@ func genWrites(r *vc.Rand) *Scenario {
 	g := &opGen{r: r}
 	sc := &Scenario{Kind: "writes"}
 	sc.Phases = append(sc.Phases, setupPhase(g.fund("alice", 100), g.fund("bob", 100)))
+	defer func() {
+		// a keyed request is sometimes sent twice at once (a client that retries early): the second answer, too, needs the entry
+		last := &sc.Phases[len(sc.Phases)-1]
+		if !r.Chance(1, 2) || len(last.Clients) < 2 {
+			return
+		}
+		c := r.Intn(len(last.Clients))
+		if len(last.Clients[c].Ops) == 0 {
+			return
+		}
+		k := r.Intn(len(last.Clients[c].Ops))
+		op := &last.Clients[c].Ops[k]
+		if op.DryRun || op.Kind == "revert" {
+			return
+		}
+		if op.IK == "" {
+			op.IK = "ik-" + op.Tag
+		}
+		dup := *op
+		dup.Attempt = 1
+		dup.CancelAt = 0
+		o := (c + 1) % len(last.Clients)
+		pos := r.Intn(len(last.Clients[o].Ops) + 1)
+		ops := append([]Op{}, last.Clients[o].Ops[:pos]...)
+		ops = append(ops, dup)
+		last.Clients[o].Ops = append(ops, last.Clients[o].Ops[pos:]...)
+	}()
 	sc.Phases = append(sc.Phases, Phase{Clients: g.clients(r.Range(2, 4), 2, func() Op {
 		op := g.mixedOp(2, true)
 		if r.Chance(1, 10) {
